@@ -17,8 +17,10 @@ package repl
 // from the most recent form as Nth numbers them) keeps every other form, in
 // order: forms == old[:lo] ++ old[lo+cut:].
 //@ func repl.(*Stash).clear
+//@   property C20 C06
 //@   ensures len-noop: !active(start, end, old(len(s.forms))) ==> len(s.forms) == old(len(s.forms))
 //@   ensures len: active(start, end, old(len(s.forms))) ==> len(s.forms) == old(len(s.forms)) - cut(start, end, old(len(s.forms)))
 //@   ensures prefix: forall k :: (active(start, end, old(len(s.forms))) && 0 <= k && k < lo(end, old(len(s.forms)))) ==> s.forms[k] == old(s.forms[k])
 //@   ensures suffix: forall k :: (active(start, end, old(len(s.forms))) && lo(end, old(len(s.forms))) <= k && k < len(s.forms)) ==> s.forms[k] == old(s.forms[k + cut(start, end, old(len(s.forms)))])
 //@   ensures noop-frame: forall k :: (!active(start, end, old(len(s.forms))) && 0 <= k && k < len(s.forms)) ==> s.forms[k] == old(s.forms[k])
+//@   ensures canary-len: len(s.forms) == old(len(s.forms))
